@@ -85,6 +85,11 @@ partial def decodeExpr : Sexp → Option Expr
   | .list (.atom "longest" :: xs) => (xs.mapM decodeExpr).map .longest
   | .list [.atom "backtrack", n] => n.nat?.map .backtrack
   | .atom "fail" => some .fail
+  | .list (.atom "tagged" :: e :: tag) => do pure (.tagged (← decodeExpr e) (← tag.mapM Sexp.int?))
+  | .list [.atom "optable", .list (.atom "pre" :: pre), .list [.atom "operand", o], .list (.atom "mixfix" :: m),
+      .list (.atom "post" :: post), .list (.atom "inf" :: inf)] => do
+    pure (.optable (← pre.mapM decodeExpr) (← decodeExpr o) (← m.mapM decodeExpr) (← post.mapM decodeExpr)
+      (← inf.mapM decodeExpr))
   | .list [.atom "py", .atom "N"] => some (.py .none)
   | .list [.atom "py", .atom "T"] => some (.py (.bool true))
   | .list [.atom "py", .atom "F"] => some (.py (.bool false))
@@ -123,6 +128,9 @@ partial def encodeExpr : Expr → String
   | .backtrack n => s!"(backtrack {n})"
   | .fail => "fail"
   | .py c => s!"(py {c.toVal.print})"
+  | .tagged e tag => s!"(tagged {encodeExpr e}" ++ String.join (tag.map fun t => s!" {t}") ++ ")"
+  | .optable pre o m post inf =>
+    s!"(optable (pre{encodeList pre}) (operand {encodeExpr o}) (mixfix{encodeList m}) (post{encodeList post}) (inf{encodeList inf}))"
 partial def encodeList (xs : List Expr) : String :=
   String.join (xs.map fun x => " " ++ encodeExpr x)
 end
